@@ -2094,7 +2094,8 @@ func (d *decoderBincBytes) kArray(f *decFnInfo, rv reflect.Value) {
 	rvlen := rv.Len()
 	hasLen := containerLenS >= 0
 	if hasLen && containerLenS > rvlen {
-		halt.errorf("cannot decode into array with length: %v, less than container length: %v", any(rvlen), any(containerLenS))
+
+		d.arrayCannotExpand(rvlen, containerLenS)
 	}
 
 	var elemReset = d.h.SliceElementReset
@@ -6204,7 +6205,8 @@ func (d *decoderBincIO) kArray(f *decFnInfo, rv reflect.Value) {
 	rvlen := rv.Len()
 	hasLen := containerLenS >= 0
 	if hasLen && containerLenS > rvlen {
-		halt.errorf("cannot decode into array with length: %v, less than container length: %v", any(rvlen), any(containerLenS))
+
+		d.arrayCannotExpand(rvlen, containerLenS)
 	}
 
 	var elemReset = d.h.SliceElementReset
